@@ -20,7 +20,16 @@ Colang 1.0 (`get_numbered_lines`; scanner `scan_v1`)
     line: no blank line is inserted before it, and nothing is appended after a `\\`;
   * no comments are added (comments can carry meaning in 1.0);
   * only blanks count as indentation in 1.0 (a tab is text), files with tabs in leading
-    whitespace are not scaled.
+    whitespace are not scaled;
+  * edit kind `strtrail`: blanks appended to the opening line or to an interior line of a multi-line
+    "..." string or \"\"\" block.  These lines are excluded from `trail`/`tab` above (conservatively:
+    "inside the quotes"), but in Colang 1.0 they are not string content either: `get_numbered_lines`
+    strips every physical line of a multi-line string before joining them, so blanks at the end of a
+    physical line can never reach the string.  They are therefore trailing whitespace in the sense of
+    the property, and the file must parse to the same flows.
+
+Colang 2.x comment payloads (`comment[<slug>]`, c13_blocks.COMMENT_PAYLOADS): the same positions as
+`comment`, another comment text; applied to the seeds named by c13_blocks.takes_payloads.
 """
 from __future__ import annotations
 
@@ -183,8 +192,26 @@ def scan_v1(text):
 
 
 # ------------------------------------------------------------------ edits
-POS_KINDS = {"2.x": ("blank", "blankws", "trail", "tab", "comment"), "1.0": ("blank", "blankws", "trail", "tab")}
-SUFFIX = {"trail": "  ", "tab": "\t", "comment": " # c"}
+POS_KINDS = {"2.x": ("blank", "blankws", "trail", "tab", "comment"),
+             "1.0": ("blank", "blankws", "trail", "tab", "strtrail")}
+SUFFIX = {"trail": "  ", "tab": "\t", "comment": " # c", "strtrail": "   "}
+
+
+def kinds_for(name, ver):
+    """Edit kinds applied to a seed."""
+    from vf.props import c13_blocks as B
+
+    if ver == "2.x" and B.takes_payloads(name):
+        return POS_KINDS[ver] + B.payload_kinds()
+    return POS_KINDS[ver]
+
+
+def suffix(kind):
+    if kind.startswith("comment["):
+        from vf.props import c13_blocks as B
+
+        return B.payload_text(kind)
+    return SUFFIX[kind]
 BLANK = {"blank": "", "blankws": "   "}
 
 
@@ -199,11 +226,13 @@ def positions(ver, text, kind):
                 ps.append(n)
             return ps
         ps = [j for j in range(n) if not info[j][2] and info[j][3] == 0]
-        if kind == "comment":
+        if kind.startswith("comment"):
             ps = [j for j in ps if info[j][4] and lines[j].strip()]
         return ps
     lines, info = scan_v1(text)
     n = len(lines)
+    if kind == "strtrail":
+        return [j for j in range(n) if info[j][1] or (info[j][0] and not _v1_closes(lines, info, j))]
     if kind in BLANK:
         ps = [j for j in range(n) if not info[j][0] and not info[j][2]]
         # appending at the end is fine unless the last line opens / continues something
@@ -243,7 +272,7 @@ def apply_pos(text, kind, ps):
             lines.insert(j, BLANK[kind])
     else:
         for j in ps:
-            lines[j] = lines[j] + SUFFIX[kind]
+            lines[j] = lines[j] + suffix(kind)
     return "\n".join(lines)
 
 
@@ -360,14 +389,14 @@ def l_base_task(task):
     v, key, nflows, err = base_of(name, ver, text)
     plan = {}
     if key is not None:
-        for kind in POS_KINDS[v]:
+        for kind in kinds_for(name, v):
             plan[kind] = len(positions(v, text, kind))
     return (name, ver, v, key is not None, nflows, err, plan)
 
 
 def l_edit_task(task):
     """task = (name, ver, text, kind, lo, hi)  kind in POS_KINDS (positions[lo:hi], one at
-    a time) | 'all:<kind>' | 'scale:<k>'."""
+    a time) | 'all:<kind>' | 'scale:<k>' | 'bundle' (= every kind, every all:<kind>, scale 2 and 3)."""
     name, ver0, text, kind, lo, hi = task
     ver, base_key, nflows, err = base_of(name, ver0, text)  # ver = the version the file really parses with
     assert base_key is not None, (name, err)
@@ -389,22 +418,32 @@ def l_edit_task(task):
                  "cls": line_class(text, kd, pos), "npos": len(ps) if ps is not None else 1}
             )
 
-    if kind.startswith("scale:"):
-        k = int(kind[6:])
-        ed = scale(ver, text, k)
-        if ed is None:
-            out["not_scalable"] += 1
+    def run(kind, lo, hi):
+        if kind.startswith("scale:"):
+            k = int(kind[6:])
+            ed = scale(ver, text, k)
+            if ed is None:
+                out["not_scalable"] += 1
+            else:
+                one(kind, None, ed)
+        elif kind.startswith("all:"):
+            kd = kind[4:]
+            ps = positions(ver, text, kd)
+            if ps:
+                one(kind, None, apply_pos(text, kd, ps), ps)
         else:
-            one(kind, None, ed)
-    elif kind.startswith("all:"):
-        kd = kind[4:]
-        ps = positions(ver, text, kd)
-        if ps:
-            one(kind, None, apply_pos(text, kd, ps), ps)
+            ps = positions(ver, text, kind)[lo:hi]
+            for j in ps:
+                one(kind, j, apply_pos(text, kind, [j]))
+
+    if kind == "bundle":
+        for kd in kinds_for(name, ver):
+            run(kd, 0, None)
+            run("all:" + kd, 0, 0)
+        run("scale:2", 0, 0)
+        run("scale:3", 0, 0)
     else:
-        ps = positions(ver, text, kind)[lo:hi]
-        for j in ps:
-            one(kind, j, apply_pos(text, kind, [j]))
+        run(kind, lo, hi)
     return out
 
 
